@@ -114,6 +114,10 @@ impl RpuDataMapping {
             let curve = &mut mapping.curves[cmp];
 
             curve.num_pivots_minus2 = reader.get_ue()?;
+            ensure!(
+                curve.num_pivots_minus2 < reader.available()? / bl_bit_depth as u64,
+                "num_pivots_minus2 exceeds the remaining RPU data"
+            );
             let num_pivots = (curve.num_pivots_minus2 + 2) as usize;
 
             curve.pivots = vec![0; num_pivots];
